@@ -33,7 +33,7 @@ fn floors(_t: Tier) -> Vec<(&'static str, u64)> {
     vec![("evaluations", 8_000), ("refusals_observed", 200), ("softmax_rows_monitored", 300), ("elements_compared", 50_000)]
 }
 
-const FUNCS: u64 = 32;
+const FUNCS: u64 = 33;
 const POWF_EXP: [f64; 8] = [-2.0, -1.0, -0.5, 0.5, 1.0, 2.0, 3.0, 3.5];
 
 fn check_value(ctx: &mut Ctx, name: &str, d: &[usize], vals_in: &[f64], kind: &OpKind, exact: bool) {
@@ -299,6 +299,11 @@ pub fn run_case(ctx: &mut Ctx, fam: &str, k: u64, r: &mut Rng) {
             let lim = if IS_F32 { 126 } else { 1022 };
             let v: Vec<f64> = (0..n).map(|_| (2.0f64).powi(r.int(-(lim as i64), lim as i64) as i32) * if r.chance(1, 2) { -1.0 } else { 1.0 }).collect();
             check_value(ctx, "reciprocal", &d, &v, &OpKind::Recip, false)
+        }
+        32 => {
+            // x^0 is 1 for every x, zero and negative bases included
+            name = "powf(0)".into();
+            check_value(ctx, "powf(0)", &d, &q, &OpKind::Powf(0.0), false)
         }
         31 => {
             name = "sigmoid-extreme".into();
